@@ -366,7 +366,7 @@ theorem strict_unpackLoop (o : Opts) (dest : Str) : ∀ (es dirs : List Entry), 
             · exact strict_pure o _ _
             · refine bindS o _ _ (strict_info o _ rfl (fun _ => False)) (fun _ h => h.elim) ?_
               intro l
-              generalize actOf o l e (clean e.name) = act
+              generalize actOf o l e (_ == clean dest) = act
               split
               · exact strict_pure o _ _
               · split
